@@ -45,6 +45,17 @@ CLASS = {
     "async-def": "import asyncio\n\n\nasync def f(a: int) -> int:\n    await asyncio.sleep(0)\n    return a\n\n\nclass K:\n    async def m(self):\n        return await f(1)\n",
     "decorated": "import functools\n\n\ndef deco(fn):\n    @functools.wraps(fn)\n    def wrapper(*a, **k):\n        return fn(*a, **k)\n\n    return wrapper\n\n\n@deco\ndef f(a: int) -> int:\n    return a\n\n\nclass K:\n    @functools.cached_property\n    def cp(self) -> int:\n        return 1\n\n    @deco\n    def m(self) -> int:\n        return 2\n",
 }
+CLASS.update({
+    "subscript-assign": "class K:\n    registry = {}\n    registry[\"a\"] = 1\n\n    def __init__(self):\n        self.cache = {}\n        self.cache[\"k\"] = 2\n        self.items = [0]\n        self.items[0] += 1\n",
+    "starred-assign": "class K:\n    first, *rest = [1, 2, 3]\n\n    def __init__(self):\n        self.a, *self.b = [1, 2, 3]\n\n\nhead, *tail = [1, 2]\n",
+    "private-foreign-base": "import argparse\n\n\nclass K(argparse._ActionsContainer):\n    def own(self) -> int:\n        ...\n",
+    "foreign-base-with-private-ancestors": "import argparse\nfrom collections import UserDict\n\n\nclass K(argparse.ArgumentParser):\n    def own(self) -> int:\n        ...\n\n\nclass L(UserDict):\n    pass\n",
+    "generic-named-like-builtin": "from typing import Generic, TypeVar\n\nT = TypeVar(\"T\")\n\n\nclass Mapping(Generic[T]):\n    pass\n\n\nclass Collection(Generic[T]):\n    pass\n\n\nclass float:\n    pass\n\n\ndef f(a: Mapping[int], b: Collection[int], c: float) -> int:\n    ...\n",
+    "strenum-flag": "from enum import Flag, IntFlag, StrEnum, auto\n\n\nclass S(StrEnum):\n    A = \"a\"\n    B = auto()\n\n\nclass F(Flag):\n    X = auto()\n    Y = auto()\n    Z = X | Y\n\n\nclass G(IntFlag):\n    P = 1\n\n\ndef f(s: S = S.A, g: F = F.X) -> G:\n    ...\n",
+    "attribute-docstrings": "X = 1\n\"\"\"Docstring of X.\"\"\"\n\n\nclass K:\n    \"\"\"Class doc.\"\"\"\n\n    a: int = 1\n    \"\"\"Docstring of a.\"\"\"\n\n    def m(self) -> int:\n        \"\"\"Method doc.\"\"\"\n        x = 1\n        \"\"\"not a docstring\"\"\"\n        return x\n",
+    "redefinition": "def f(a: int) -> int:\n    ...\n\n\ndef f(a: str) -> str:  # noqa: F811\n    ...\n\n\nclass K:\n    def m(self) -> int:\n        ...\n\n    def m(self) -> str:  # noqa: F811\n        ...\n\n    x = 1\n    x = \"s\"\n",
+    "init-conditional-attrs": "class K:\n    def __init__(self, flag: bool, other: \"K\"):\n        if flag:\n            self.a = 1\n        else:\n            self.a = \"s\"\n        for i in range(3):\n            self.b = i\n        other.x = 3\n        u, v = 1, 2\n        with open(\"f\") as self.fh:\n            pass\n",
+})
 FOREIGN = {
     "one-segment": "def f(x):\n    return x\n\n\ndef g(y):\n    return y, 1\n",
     "two-segment": "from pathlib import Path\n\n\ndef f(p: Path) -> Path:\n    ...\n",
@@ -77,6 +88,12 @@ DOCS = {
 }
 ODD_TYPES = ["int | False | None", "5 | int | str", "str | True | int", '{"a", "b"} or None', "list of int", "callable", "int, optional", "array-like of shape (n,)",
              "int or float, default=1.0", "dict[str, list[int | None]]", "Optional[Union[int, str]]", "tuple[int, ...]", "a.b.C", "'quoted'", "int | (str)", "[int, str]", "lambda x: x"]
+
+
+def _named_like(style: str) -> str:
+    sec = {"numpy": "Parameters\n    ----------\n    a : int\n        The a.\n", "google": "Args:\n        a (int): The a.\n", "rest": ":param a: The a.\n    :type a: int\n"}[style]
+    return ('"""Module doc."""\n\n\ndef gadget(a: int) -> int:\n    """Function doc.\n\n    ' + sec + '    """\n    return a\n\n\n'
+            'class Gadget:\n    """Class doc."""\n\n    def gadget(self) -> int:\n        """Method doc."""\n        return 1\n\n    def m(self) -> int:\n        """Other doc."""\n        return 1\n')
 
 
 def _odd(style: str) -> str:
@@ -120,6 +137,11 @@ def module_source(feat: list[str], pkg: str) -> dict:
         return {"m.py": FOREIGN[k]}
     if kind == "modcode":
         return {"m.py": MODCODE[k].replace("{pkg}", pkg)}
+    if kind == "doc" and k.startswith("member-named-like-module-"):
+        return {"gadget.py": _named_like(k.rsplit("-", 1)[1])}
+    if kind == "doc" and k == "module-named-like-package-numpy":      # pkg/pkg.py next to pkg/__init__.py
+        return {"{sub}.py": 'class Thing:\n    """Class doc.\n\n    Parameters\n    ----------\n    a : int\n        The a.\n    """\n\n    def __init__(self, a: int):\n        self.a = a\n\n\n'
+                            'def {sub}(a: int) -> int:\n    """Function named like module and package."""\n    return a\n'}
     if kind == "doc":
         return {"m.py": DOCS[k]}
     if kind == "reexport":
